@@ -71,14 +71,16 @@ func zzJoin(vals []uint16, dropGrease bool) string {
 // by the real unmarshal, turned into the ClientHelloInfo the certificate callback
 // receives, and its JA3 string is compared with the specification's JA3 computed from
 // the raw values (wire order; GREASE values left out of ciphers, extensions and curves).
-func zzH_C13_ja3() {
-	vers := uint16(0x0300 + zzLen(0, 3))
-	nc := zzLen(1, zzParam("CIPHERS", 2))
+// zzMakeHello lays out a ClientHello (see zzH_C13_ja3) and returns its handshake message,
+// the specification's JA3 string for it, the SNI sent and a label for findings.
+func zzMakeHello(minVers, maxC, maxU, maxCv int) (msg []byte, want, sni, label string) {
+	vers := uint16(0x0300 + zzLen(minVers, 3))
+	nc := zzLen(1, maxC)
 	var ciphers []uint16
 	for i := 0; i < nc; i++ {
 		ciphers = append(ciphers, zzVal())
 	}
-	nx := zzLen(0, zzParam("UNKNOWN", 1))
+	nx := zzLen(0, maxU)
 	var unknown []uint16
 	for i := 0; i < nx; i++ {
 		t := zzVal()
@@ -86,7 +88,7 @@ func zzH_C13_ja3() {
 		zzAssume(zzAnd(zzAnd(t > 35, t != 13172), t != 0xff01))
 		unknown = append(unknown, t)
 	}
-	ncv := zzLen(0, zzParam("CURVES", 2))
+	ncv := zzLen(0, maxCv)
 	var curves []uint16
 	for i := 0; i < ncv; i++ {
 		curves = append(curves, zzVal())
@@ -98,12 +100,15 @@ func zzH_C13_ja3() {
 		zzAssume(p < 10)
 		points = append(points, p)
 	}
-	sni := ""
+	sni = ""
 	if zzLen(0, 1) == 1 {
 		sni = "a" + zzString(1) + ".io"
 		zzAssume(zzAnd(sni[1] >= 'a', sni[1] <= 'z'))
 	}
-	emptyUnknownBody := zzLen(0, 1) == 1
+	emptyUnknownBody := true
+	if nx > 0 {
+		emptyUnknownBody = zzLen(0, 1) == 1
+	}
 
 	// ---- wire format ----
 	var ext []byte
@@ -156,8 +161,18 @@ func zzH_C13_ja3() {
 		body = zzPut16(body, uint16(len(ext)))
 		body = append(body, ext...)
 	}
-	msg := append([]byte{typeClientHello, byte(len(body) >> 16), byte(len(body) >> 8), byte(len(body))}, body...)
+	msg = append([]byte{typeClientHello, byte(len(body) >> 16), byte(len(body) >> 8), byte(len(body))}, body...)
 
+	var pts16 []uint16
+	for _, p := range points {
+		pts16 = append(pts16, uint16(p))
+	}
+	want = zzDec16(vers) + "," + zzJoin(ciphers, true) + "," + zzJoin(extOrder, true) + "," + zzJoin(curves, true) + "," + zzJoin(pts16, false)
+	return msg, want, sni, zzJa3Diff(ciphers, extOrder, curves)
+}
+
+func zzH_C13_ja3() {
+	msg, want, sni, label := zzMakeHello(0, zzParam("CIPHERS", 2), zzParam("UNKNOWN", 1), zzParam("CURVES", 2))
 	m := new(clientHelloMsg)
 	ok := m.unmarshal(msg)
 	zzAssert(ok, "a well-formed ClientHello is accepted by the parser")
@@ -167,13 +182,8 @@ func zzH_C13_ja3() {
 	hs := &serverHandshakeState{c: &Conn{}, clientHello: m}
 	info := hs.clientHelloInfo()
 
-	var pts16 []uint16
-	for _, p := range points {
-		pts16 = append(pts16, uint16(p))
-	}
-	want := zzDec16(vers) + "," + zzJoin(ciphers, true) + "," + zzJoin(extOrder, true) + "," + zzJoin(curves, true) + "," + zzJoin(pts16, false)
 	got := info.JA3()
-	zzAssertMsg(got == want, "the JA3 string equals the specification's JA3 of the hello sent (wire order, GREASE left out of ciphers, extensions and curves)", zzJa3Diff(ciphers, extOrder, curves))
+	zzAssertMsg(got == want, "the JA3 string equals the specification's JA3 of the hello sent (wire order, GREASE left out of ciphers, extensions and curves)", label)
 	zzAssert(info.ServerName == sni, "the recorded server name equals the SNI sent")
 }
 
